@@ -175,7 +175,7 @@ func (b *EnumBase) Derive(trace []string, appDir string) []*Case {
 			key := call.op + " " + dir
 			perDir[key]++
 			nth := perDir[key]
-			for _, k := range []string{"err-eio", "err-enospc", "err-eacces", "err-erofs", "crash-before", "crash-trunc", "crash-after"} {
+			for _, k := range []string{"err-eio", "err-enospc", "err-eacces", "err-erofs", "crash-before", "crash-trunc", "crash-after", "close-eio", "sync-enospc"} {
 				add(world.Fault{Op: call.op, Path: dir, Nth: nth, Kind: k})
 			}
 			for _, n := range []int{0, 500, 999} {
